@@ -255,7 +255,7 @@ def run(run):
         if not run.mine(i):
             continue
         r = run.rng("schema", i)
-        decls = cansch.gen_can_schema(r, second_bindings=True)
+        decls = cansch.gen_can_schema(r, second_bindings=True, bitstart=True)
         check_schema(run, decls, r, i)
 
 
